@@ -227,9 +227,11 @@ Idle == outcome = "run" /\ ~inRead /\ pending = <<>>
 
 \* The implementation asks for more input.  Not while a value AND a following
 \* byte are already in hand (a value that ends exactly where the delivered
-\* bytes end may or may not be decoded first: left open).
+\* bytes end may or may not be decoded first: left open).  Asking again after
+\* the reader has reported its end is harmless and allowed (encoding/json does
+\* it after a value that is ended by the end of input): the reader repeats itself.
 ReadCall ==
-  /\ Idle /\ rstat = "open"
+  /\ Idle
   /\ LET x == Look IN ~(x.r = "value" /\ x.e < delivered)
   /\ inRead' = TRUE
   /\ UNCHANGED <<delivered, rstat, consumed, pending, processed, emitted, outcome>>
@@ -318,7 +320,7 @@ TypeOK ==
   /\ Len(pending) <= 1 /\ processed = Len(emitted)
   /\ outcome \in {"run", "ok", "json"}
   /\ (rstat # "open") => delivered = Limit
-  /\ inRead => (rstat = "open" /\ pending = <<>> /\ outcome = "run")
+  /\ inRead => (pending = <<>> /\ outcome = "run")
 
 \* blocked asking for input => every value that has been read together with one
 \* following byte is fully processed
